@@ -105,7 +105,8 @@ def rnd_csel(r, maxlen):
 
 
 def opts_for(r, op):
-    o = {"via": r.choice(RVIAS)}
+    from .props import PRES
+    o = {"via": r.choice(RVIAS), "pre": r.choice(PRES + [None, None])}
     if op in ("getitem", "setitem"):
         o["spelling"] = r.choice(["plain", "plain", "tuple", "empty"])
     if op == "setitem":
